@@ -24,12 +24,39 @@ Definition fval_eqb (a b : fval) : bool :=
   | V_b x, V_b y => bytes_eqb x y
   | _, _ => false
   end.
+(* A field the record does not carry (the generated unpack() returned early on
+   exhausted RDATA) is the Go zero value of its type: it compares as the zero
+   value of the kind the other side holds; two absent fields are equal. *)
+Definition zero_like (x : fval) : fval :=
+  match x with
+  | V_n _ => V_n 0 | V_s _ => V_s [] | V_ss _ => V_ss [] | V_b _ => V_b [] | V_enc _ => V_enc []
+  | V_ns _ => V_ns [] | V_pairs _ => V_pairs [] | V_apl _ => V_apl []
+  end.
 Definition opt_fval_eqb (a b : option fval) : bool :=
   match a, b with
   | Some x, Some y => fval_eqb x y
   | None, None => true
-  | _, _ => false
+  | Some x, None => fval_eqb x (zero_like x)
+  | None, Some y => fval_eqb (zero_like y) y
   end.
+
+(* list-valued fields: absent = nil *)
+Definition kind_ss (o : option fval) : bool := match o with None | Some (V_ss _) => true | _ => false end.
+Definition kind_ns (o : option fval) : bool := match o with None | Some (V_ns _) => true | _ => false end.
+Definition kind_apl (o : option fval) : bool := match o with None | Some (V_apl _) => true | _ => false end.
+Definition kind_pairs (o : option fval) : bool := match o with None | Some (V_pairs _) => true | _ => false end.
+(* len(r1.F) != len(r2.F) *)
+Definition len_rel (o1 o2 : option fval) : bool :=
+  if kind_ss o1 && kind_ss o2 then Nat.eqb (length (as_ss o1)) (length (as_ss o2))
+  else if kind_ns o1 && kind_ns o2 then Nat.eqb (length (as_ns o1)) (length (as_ns o2))
+  else if kind_apl o1 && kind_apl o2 then Nat.eqb (length (as_apl o1)) (length (as_apl o2))
+  else if kind_pairs o1 && kind_pairs o2 then Nat.eqb (length (as_pairs o1)) (length (as_pairs o2))
+  else false.
+(* for i := range r1.F { r1.F[i] != r2.F[i] } on []string / []uint16 *)
+Definition each_rel (o1 o2 : option fval) : bool :=
+  if kind_ss o1 && kind_ss o2 then list_eqb bytes_eqb (as_ss o1) (firstn (length (as_ss o1)) (as_ss o2))
+  else if kind_ns o1 && kind_ns o2 then list_eqb N.eqb (as_ns o1) (firstn (length (as_ns o1)) (as_ns o2))
+  else false.
 
 (* areSVCBPairArraysEqual: both sorted by key, then keys and packed values compared;
    panics (index out of range) when b is shorter than a *)
@@ -54,22 +81,8 @@ Definition dup_cmp (c : dcmp) (v1 v2 : rdata) : res (option bool) :=
   match c with
   | D_eq f => go (opt_fval_eqb (vget v1 f) (vget v2 f))
   | D_name f => go (name_eq_ci (as_s (vget v1 f)) (as_s (vget v2 f)))
-  | D_len_eq f =>
-    go (match vget v1 f, vget v2 f with
-        | Some (V_ss a), Some (V_ss b) => Nat.eqb (length a) (length b)
-        | Some (V_ns a), Some (V_ns b) => Nat.eqb (length a) (length b)
-        | Some (V_apl a), Some (V_apl b) => Nat.eqb (length a) (length b)
-        | Some (V_pairs a), Some (V_pairs b) => Nat.eqb (length a) (length b)
-        | None, None => true
-        | _, _ => false
-        end)
-  | D_each_eq f =>
-    go (match vget v1 f, vget v2 f with
-        | Some (V_ss a), Some (V_ss b) => list_eqb bytes_eqb a (firstn (length a) b)
-        | Some (V_ns a), Some (V_ns b) => list_eqb N.eqb a (firstn (length a) b)
-        | None, None => true
-        | _, _ => false
-        end)
+  | D_len_eq f => go (len_rel (vget v1 f) (vget v2 f))
+  | D_each_eq f => go (each_rel (vget v1 f) (vget v2 f))
   | D_each_name f =>
     go (list_eqb name_eq_ci (as_ss (vget v1 f)) (firstn (length (as_ss (vget v1 f))) (as_ss (vget v2 f))))
   | D_each_equals f =>
